@@ -345,3 +345,44 @@ pub fn write_family(dir: &Path) -> Vec<FontJob> {
     }
     out
 }
+
+/// Feature class of a synthetic glyph (the same for every unitsPerEm); part of violation identities so
+/// that different defects on the synthetic family get different identities.
+pub fn class_of(gid: u32) -> String {
+    let n_simple = (ALPHABET.len() * ALPHABET.len() * PATTERNS.len()) as u32;
+    if gid == 0 {
+        return "empty glyph".into();
+    }
+    if gid <= n_simple {
+        let p = (gid - 1) as usize % PATTERNS.len();
+        let names = ["all on-curve", "alternating on/off", "first point off", "all off-curve", "two consecutive off"];
+        return format!("simple glyph, {}", names[p]);
+    }
+    let ci = (gid - 1 - n_simple) as usize;
+    let per_base = 5 * OFFSETS.len() * 2 * 2 * 3;
+    let tnames = ["no transform", "uniform scale 0.5", "scale -1", "x/y scale", "2x2 transform"];
+    if ci < 3 * per_base {
+        let r = ci % per_base;
+        let t = r / (OFFSETS.len() * 12);
+        let r2 = r % (OFFSETS.len() * 12);
+        let off = r2 / 12;
+        let round = (r2 % 12) / 6;
+        let umm = (r2 % 6) / 3;
+        let sc = r2 % 3;
+        // ROUND_XY_TO_GRID / USE_MY_METRICS / zero offset are reported in the message, not the identity
+        let _ = (off, round, umm);
+        return format!(
+            "composite, {}, {}",
+            tnames[t],
+            ["default offset scaling", "SCALED_COMPONENT_OFFSET", "UNSCALED_COMPONENT_OFFSET"][sc],
+        );
+    }
+    let r = ci - 3 * per_base;
+    if r < 5 {
+        return format!("two-component composite, second {}", tnames[r]);
+    }
+    if r < 10 {
+        return format!("point-anchored composite, second {}", tnames[r - 5]);
+    }
+    "nested composite".into()
+}
